@@ -61,6 +61,7 @@ def run(repo, chk):
     r2(repo, chk)
     r3_r4(repo, chk)
     r5(repo, chk)
+    r5_packet_accounting(repo, chk)
 
 
 # ---- R1 ---------------------------------------------------------------------------------------------
@@ -483,3 +484,33 @@ def r5(repo, chk):
     fd = Fn(repo, "quic.packet_builder:QuicPacketBuilder._flush_current_datagram")
     ok = any(isinstance(st, ast.AugAssign) and norm(v) == "self._datagram_flight_bytes" for st, t, v in fd.assigns(chain="self._flight_bytes"))
     chk.ob("R5", "the builder charges every flushed datagram's in-flight bytes to the budget", ok, "", fd.loc(fd.node))
+
+
+def r5_packet_accounting(repo, chk):
+    """the facts recovery and the congestion controller are later told about a packet are the ones the builder measured"""
+    sf = Fn(repo, "quic.packet_builder:QuicPacketBuilder.start_frame")
+    infl = [st for st, t, v in sf.assigns(chain="self._packet.in_flight") if isinstance(v, ast.Constant) and v.value is True]
+    ok = len(infl) == 1 and sf.lexical_guards(infl[0], expand=False) == [natom("frame_type not in NON_IN_FLIGHT_FRAME_TYPES")]
+    chk.ob("R5", "start_frame marks the packet in flight for every frame type outside NON_IN_FLIGHT_FRAME_TYPES", ok, f"{[sf.lexical_guards(s, expand=False) for s in infl]}: an ack-eliciting packet that is not counted in flight escapes the congestion window", sf.loc(sf.node))
+    ep = Fn(repo, "quic.packet_builder:QuicPacketBuilder._end_packet")
+    pads = [c for c in ep.calls(name="buf.push_bytes") if c.args and isinstance(c.args[0], ast.Call) and call_name(c.args[0]) == "bytes"]
+    for c in pads:
+        blk = getattr(_stmt(c), "_parent", None)
+        sib = [norm(x) for x in getattr(blk, "body", [])]
+        chk.ob("R5", "_end_packet: a packet that receives PADDING is marked in flight", "self._packet.in_flight = True" in sib, "padding bytes would be sent outside the congestion window (RFC 9002: packets containing PADDING are in flight)", ep.loc(c))
+    sb = [(st, v) for st, t, v in ep.assigns(chain="self._packet.sent_bytes")]
+    enc = [c for c in ep.calls(suffix="encrypt_packet")]
+    ok = len(sb) == 1 and norm(sb[0][1]) == "buf.tell() - self._packet_start" and bool(enc) and all(_stmt(c).lineno < sb[0][0].lineno for c in enc) and ep.lexical_guards(sb[0][0], expand=False) == ep.lexical_guards(_stmt(enc[0]), expand=False)
+    chk.ob("R5", "_end_packet records sent_bytes = size of the protected packet, measured after encryption", ok, f"{[norm(v) for st, v in sb]}", ep.loc(ep.node))
+    acc = [st for st, t, v in ep.assigns(chain="self._datagram_flight_bytes") if isinstance(st, ast.AugAssign) and norm(v) == "self._packet.sent_bytes"]
+    ok = len(acc) == 1 and bool(sb) and sb[0][0].lineno < acc[0].lineno and [a for a in ep.lexical_guards(acc[0], expand=False) if a not in ep.lexical_guards(sb[0][0], expand=False)] == [("self._packet.in_flight", True)]
+    chk.ob("R5", "_end_packet charges sent_bytes to the datagram's in-flight bytes exactly when the packet is in flight", ok, "", ep.loc(ep.node))
+    apps = [c for c in ep.calls(name="self._packets.append")]
+    ok = len(apps) == 1 and norm(apps[0].args[0]) == "self._packet" and bool(sb) and sb[0][0].lineno < apps[0].lineno
+    chk.ob("R5", "_end_packet hands the packet record over only after its size was recorded", ok, "", ep.loc(ep.node))
+
+
+def _stmt(n):
+    while n is not None and not isinstance(n, ast.stmt):
+        n = getattr(n, "_parent", None)
+    return n
